@@ -19,6 +19,7 @@ package accumulation
 //verif:init go/scanner
 //verif:init go/parser
 //verif:init go/printer
+//verif:init golang.org/x/tools/go/ssa
 //verif:init unicode
 //verif:init regexp/syntax
 //verif:init regexp
@@ -48,6 +49,7 @@ import (
 	"go.uber.org/nilaway/assertion"
 	"go.uber.org/nilaway/assertion/affiliation"
 	"go.uber.org/nilaway/assertion/anonymousfunc"
+	"go.uber.org/nilaway/assertion/function"
 	"go.uber.org/nilaway/assertion/function/assertiontree"
 	"go.uber.org/nilaway/assertion/function/functioncontracts"
 	"go.uber.org/nilaway/assertion/global"
@@ -56,6 +58,7 @@ import (
 	"go.uber.org/nilaway/util/analysishelper"
 	"golang.org/x/tools/go/analysis"
 	"golang.org/x/tools/go/cfg"
+	"golang.org/x/tools/go/ssa"
 )
 
 var pipeDebug bool
@@ -69,13 +72,17 @@ var pipeAffiliation bool
 // pipeExclude is the -exclude-pkgs list the pipeline runs with (default: none; everything is included).
 var pipeExclude []string
 
+// pipeContracts also collects function contracts (real inferContracts on the real SSA) and duplicates triggers at contracted calls.
+var pipeContracts bool
+
 type pipeResult struct {
-	diags    []analysis.Diagnostic
-	fset     *token.FileSet
-	funcErrs []string // per-function backpropagation errors ("internal error" material)
-	panicked string
-	triggers int
-	trace    []string
+	diags     []analysis.Diagnostic
+	fset      *token.FileSet
+	funcErrs  []string // per-function backpropagation errors ("internal error" material)
+	panicked  string
+	triggers  int
+	trace     []string
+	contracts int
 }
 
 func (r pipeResult) lines() map[int]bool {
@@ -177,7 +184,18 @@ func pipeAnalysePkg(path, fileName, src string, deps []pipeDep) (res pipeResult,
 	if err != nil {
 		res.funcErrs = append(res.funcErrs, err.Error())
 	}
+	// function contracts (hand-written ones and those the REAL inferContracts derives from the REAL SSA of the package)
+	contracts := functioncontracts.Map{}
+	if pipeContracts {
+		prog := ssa.NewProgram(fset, ssa.BuildSerially)
+		ssapkg := prog.CreatePackage(pkg, []*ast.File{file}, info, false)
+		ssapkg.Build()
+		contracts = functioncontracts.VerifCollect([]*ast.File{file}, info, func(f *types.Func) *ssa.Function { return prog.FuncValue(f) })
+		res.contracts = len(contracts)
+	}
 	var triggers []annotation.FullTrigger
+	var perFunc [][]annotation.FullTrigger
+	var decls []*ast.FuncDecl
 	for _, d := range file.Decls {
 		fd, ok := d.(*ast.FuncDecl)
 		if !ok || fd.Body == nil {
@@ -185,7 +203,7 @@ func pipeAnalysePkg(path, fileName, src string, deps []pipeDep) (res pipeResult,
 		}
 		graph := cfg.New(fd.Body, func(*ast.CallExpr) bool { return true })
 		fctx := assertiontree.NewFunctionContext(epass, fd, nil, assertiontree.FunctionConfig{}, map[*ast.FuncLit]*anonymousfunc.FuncLitInfo{},
-			map[*ast.Ident]types.Object{}, functioncontracts.Map{}, nil)
+			map[*ast.Ident]types.Object{}, contracts, nil)
 		trs, rounds, stable, err := assertiontree.BackpropAcrossFunc(context.Background(), epass, fd, fctx, graph)
 		if pipeDebug {
 			res.trace = append(res.trace, fd.Name.Name+": rounds "+strconv.Itoa(rounds)+" stable "+strconv.Itoa(stable)+" blocks "+strconv.Itoa(len(graph.Blocks)))
@@ -194,41 +212,9 @@ func pipeAnalysePkg(path, fileName, src string, deps []pipeDep) (res pipeResult,
 			res.funcErrs = append(res.funcErrs, fd.Name.Name+": "+err.Error())
 			continue
 		}
-		triggers = append(triggers, trs...)
+		perFunc = append(perFunc, trs)
+		decls = append(decls, fd)
 		if pipeDebug {
-			for a := range trs {
-				for b := a + 1; b < len(trs); b++ {
-					ta, tb := trs[a], trs[b]
-					if ta.Consumer.Annotation.Repr().String() == tb.Consumer.Annotation.Repr().String() && ta.Producer.Annotation.Repr().String() == tb.Producer.Annotation.Repr().String() {
-						d := fd.Name.Name + ": dup"
-						if ta.Consumer.Expr == tb.Consumer.Expr {
-							d += " sameConsExpr"
-						}
-						if ta.Producer.Expr == tb.Producer.Expr {
-							d += " sameProdExpr"
-						}
-						if ta.Consumer == tb.Consumer {
-							d += " sameConsPtr"
-						}
-						if ta.Producer == tb.Producer {
-							d += " sameProdPtr"
-						}
-						if ta.Consumer.Guards.Eq(tb.Consumer.Guards) {
-							d += " guardsEq"
-						}
-						if ta.Consumer.Annotation == tb.Consumer.Annotation {
-							d += " sameConsAnn"
-						}
-						if ta.Producer.Annotation == tb.Producer.Annotation {
-							d += " sameProdAnn"
-						}
-						if ta.Controller == tb.Controller {
-							d += " sameCtrl"
-						}
-						res.trace = append(res.trace, d)
-					}
-				}
-			}
 			for _, t := range trs {
 				line := 0
 				if t.Consumer.Expr != nil {
@@ -241,6 +227,12 @@ func pipeAnalysePkg(path, fileName, src string, deps []pipeDep) (res pipeResult,
 				res.trace = append(res.trace, fd.Name.Name+": "+t.Producer.Annotation.Repr().String()+" -> "+t.Consumer.Annotation.Repr().String()+" @"+strconv.Itoa(line)+" "+g)
 			}
 		}
+	}
+	// the callee's parameter/return triggers are duplicated at every call of a contracted function (function.run does this
+	// after collecting the per-function results)
+	function.VerifDuplicate(epass, contracts, decls, perFunc)
+	for _, trs := range perFunc {
+		triggers = append(triggers, trs...)
 	}
 	if pipeAffiliation {
 		out, err := affiliation.Analyzer.Run(pass)
@@ -266,7 +258,7 @@ func pipeAnalysePkg(path, fileName, src string, deps []pipeDep) (res pipeResult,
 	return res, facts
 }
 
-var ndHarnesses = map[string]func(){"Harness_Pipe_Smoke": Harness_Pipe_Smoke, "Harness_P08": Harness_P08, "Harness_P01": Harness_P01, "Harness_P07": Harness_P07, "Harness_P01L": Harness_P01L, "Harness_P08_Ok": Harness_P08_Ok, "Harness_P01X": Harness_P01X, "Harness_P01R": Harness_P01R, "Harness_P13": Harness_P13, "Harness_P10": Harness_P10, "Harness_P09": Harness_P09, "Harness_P14": Harness_P14, "Harness_P12": Harness_P12}
+var ndHarnesses = map[string]func(){"Harness_Pipe_Smoke": Harness_Pipe_Smoke, "Harness_P08": Harness_P08, "Harness_P01": Harness_P01, "Harness_P07": Harness_P07, "Harness_P01L": Harness_P01L, "Harness_P08_Ok": Harness_P08_Ok, "Harness_P01X": Harness_P01X, "Harness_P01R": Harness_P01R, "Harness_P13": Harness_P13, "Harness_P10": Harness_P10, "Harness_P09": Harness_P09, "Harness_P14": Harness_P14, "Harness_P12": Harness_P12, "Harness_P20": Harness_P20}
 
 // Harness_Pipe_Smoke: two fixed programs, one with an unguarded dereference of a nil local, one guarded.
 func Harness_Pipe_Smoke() {
